@@ -54,6 +54,8 @@ type Action struct {
 	Sim func(m *model.State) []model.Tx
 	// PrefixOnly letters build the scenario's initial state; the search does not use them
 	PrefixOnly bool
+	// Upgrade: the in-place software upgrade the binary ships a handler for (two blocks, see upgrade.go)
+	Upgrade bool
 }
 
 // TxObs is what was observed and predicted for one transaction.
@@ -425,7 +427,7 @@ func (e *Exec) Run(a *Action, oracle bool) (StepObs, []Disc) {
 		obs.AppHash = fmt.Sprintf("%X", h)
 		return true
 	}
-	if a.Gov == nil {
+	if a.Gov == nil && !a.Upgrade {
 		var txs []model.Tx
 		if a.Txs != nil {
 			txs = a.Txs(e.M)
@@ -443,6 +445,8 @@ func (e *Exec) Run(a *Action, oracle bool) (StepObs, []Disc) {
 				obs.Txs = append(obs.Txs, TxObs{Tx: tx, Pred: "simulated", Log: firstLine(log), Code: map[bool]uint32{true: 0, false: 1}[sok]})
 			}
 		}
+	} else if a.Upgrade {
+		e.runUpgrade(a, &obs, &discs)
 	} else {
 		e.runGov(a, &obs, &discs)
 	}
